@@ -11,8 +11,6 @@ codec's normalisation, and integer fields are in the range of their binary field
 structure Decoded (T : Tables) : Prop where
   codecFixed : codec T = T
   revision : ∀ h, T.head = some h → h.fontRevision < 4294967296
-  hmtxRange : ∀ h, T.hmtx = some h → ∀ w ∈ h.widths, isInt16 w
-  postRange : ∀ p, T.post = some p → isInt16 p.underlinePosition ∧ isInt16 p.underlineThickness
   /-- CFF glyph data carries one width per glyph -/
   cffWidths : ∀ l, T.outline.widths = some l → l.length = T.outline.numGlyphs
 
@@ -30,12 +28,356 @@ structure Stable (T : Tables) : Prop where
   widths : ∀ w ∈ (merge T).outline.widthList, ∃ n, w = Dy.ofInt n ∧ isInt16 n
   widthsNone : (merge T).outline.widths = none → (merge T).outline.numGlyphs = 0
 
-theorem inDomain_merge (T : Tables) (hacc : readErr T = none) (hd : Decoded T) : InDomain (merge T) := by
-  sorry
+/-! ## projections of `merge` and what `readErr = none` gives -/
+
+theorem merge_outline (T : Tables) : (merge T).outline = mergeOutline T := rfl
+
+theorem merge_version (T : Tables) : (merge T).version =
+    match T.name.bind (fun n => verParse n.version) with
+    | some v => verRound v
+    | none =>
+      match T.head with
+      | some h => verRound h.fontRevision
+      | none =>
+        match (if T.scalerCFF then T.cff else none) with
+        | some c => if c.version.isEmpty then 0 else verRound ((verParse c.version).getD 0)
+        | none => 0 := rfl
+
+theorem verRound_lt (v : Nat) : verRound v < 4294967296 := by
+  unfold verRound
+  exact Nat.mod_lt _ (by decide)
+
+theorem merge_version_lt (T : Tables) : (merge T).version < 4294967296 := by
+  rw [merge_version]
+  split
+  · exact verRound_lt _
+  · split
+    · exact verRound_lt _
+    · split
+      · split
+        · decide
+        · exact verRound_lt _
+      · decide
+
+theorem readErr_settle (T : Tables) (hacc : readErr T = none) :
+    ∃ n, settleNumGlyphs T = some n ∧ (n = 0 ∨ T.outline.numGlyphs = n) := by
+  unfold readErr at hacc
+  split at hacc
+  · cases hacc
+  · split at hacc
+    · cases hacc
+    · rename_i n hn
+      refine ⟨n, hn, ?_⟩
+      repeat' split at hacc
+      all_goals first | omega | cases hacc
+
+theorem readErr_glyf (T : Tables) (hacc : readErr T = none) (h : T.scalerCFF = false) :
+    T.outline.emptyGlyf = false := by
+  unfold readErr at hacc
+  split at hacc
+  · cases hacc
+  · rename_i hc
+    simpa [h] using hc
+
+theorem mergeOutline_widths_length (T : Tables) (hacc : readErr T = none)
+    (hc : ∀ l, T.outline.widths = some l → l.length = T.outline.numGlyphs) :
+    ∀ l, (mergeOutline T).widths = some l → l.length = (mergeOutline T).numGlyphs := by
+  intro l hl
+  obtain ⟨n', hs, hn⟩ := readErr_settle T hacc
+  obtain ⟨scaler, head, hmtx, maxp, os2, name, post, cff, ⟨kind, n, widths, heights, glyphs, eg, cm, hb, gh, gx, sl⟩, gdef, gsub, gpos, kern⟩ := T
+  simp only [mergeOutline, hmtxWidths] at hl ⊢
+  simp only [settleNumGlyphs] at hs
+  simp only at hc hn
+  generalize maxp.getD 0 = n0 at *
+  cases hmtx with
+  | none =>
+    simp at hl
+    exact hc l hl.2
+  | some h =>
+    simp only at hl hs
+    generalize h.widths = ws at *
+    by_cases h0 : n0 = 0
+    · subst h0
+      simp only [ne_eq, not_true_eq_false, if_false, if_true] at hl hs
+      by_cases hpos : ws.length > 0
+      · simp only [hpos, if_true] at hl hs
+        cases hl; cases hs
+        rw [List.length_map]; omega
+      · simp only [hpos, if_false] at hl
+        cases scaler
+        · simp at hl
+        · exact hc l (by simpa using hl)
+    · simp only [ne_eq, h0, not_false_eq_true, if_true, if_false, List.length_take] at hl hs
+      by_cases hpos : min n0 ws.length > 0
+      · simp only [hpos, if_true] at hl
+        cases hl
+        rw [List.length_map, List.length_take]
+        have : ws.length > 0 := by omega
+        simp only [this, if_true] at hs
+        repeat' split at hs
+        all_goals first | omega | cases hs
+        all_goals omega
+      · simp only [hpos, if_false] at hl
+        cases scaler
+        · simp at hl
+        · exact hc l (by simpa using hl)
+
+theorem inDomain_merge' (T : Tables) (hacc : readErr T = none)
+    (hc : ∀ l, T.outline.widths = some l → l.length = T.outline.numGlyphs) : InDomain (merge T) := by
+  refine ⟨?_, ?_, merge_version_lt T⟩
+  · rw [merge_outline]; exact mergeOutline_widths_length T hacc hc
+  · rw [merge_outline]
+    intro hk
+    have : T.scalerCFF = false := by
+      cases hsc : T.scalerCFF
+      · rfl
+      · simp [mergeOutline, hsc] at hk
+    exact readErr_glyf T hacc this
+
+theorem verOfDecimal_lt (n k : Nat) : verOfDecimal n k < 4294967296 := by
+  unfold verOfDecimal
+  exact Nat.mod_lt _ (by decide)
+
+theorem verParse_lt (s : Str) (v : Nat) (h : verParse s = some v) : v < 4294967296 := by
+  unfold verParse at h
+  simp only [] at h
+  repeat' split at h
+  all_goals first | cases h | skip
+  all_goals exact verOfDecimal_lt _ _
+
+theorem merge_version_nf (T : Tables) (hrev : ∀ h, T.head = some h → h.fontRevision < 4294967296) :
+    nfVersion (merge T).version = (merge T).version := by
+  rw [merge_version]
+  split
+  · rename_i v hv
+    apply nfVersion_verRound
+    cases hn : T.name with
+    | none => simp [hn] at hv
+    | some n =>
+      simp [hn] at hv
+      exact verParse_lt _ _ hv
+  · split
+    · rename_i h hh
+      exact nfVersion_verRound _ (hrev h hh)
+    · split
+      · split
+        · decide
+        · rename_i c _ _
+          apply nfVersion_verRound
+          cases hp : verParse c.version with
+          | none => simp
+          | some v => simpa using verParse_lt _ _ hp
+      · decide
+
+theorem merge_ctime (T : Tables) : (merge T).creationTime =
+    match T.head with | some h => h.created | none => Time.zero := rfl
+theorem merge_mtime (T : Tables) : (merge T).modificationTime =
+    match T.head with | some h => h.modified | none => Time.zero := rfl
+theorem merge_perm (T : Tables) : (merge T).permUse =
+    match T.os2 with | some s => s.permUse | none => 0 := rfl
+theorem merge_fontMatrix (T : Tables) : (merge T).fontMatrix =
+    match (if T.scalerCFF then T.cff else none) with
+    | some c => c.fontMatrix
+    | none => ⟨['U'], some (merge T).unitsPerEm⟩ := rfl
+theorem merge_cap (T : Tables) : (merge T).capHeight =
+    heightFallback (match T.os2 with | some s => s.capHeight | none => 0) (mergeOutline T) (mergeOutline T).gidH := rfl
+theorem merge_xh (T : Tables) : (merge T).xHeight =
+    heightFallback (match T.os2 with | some s => s.xHeight | none => 0) (mergeOutline T) (mergeOutline T).gidX := rfl
+
+theorem codec_head (T : Tables) (hc : codec T = T) (h : HeadRec) (hh : T.head = some h) : codecHead h = h := by
+  have := congrArg Tables.head hc
+  simp only [codec, hh, Option.map] at this
+  exact Option.some.inj this
+
+theorem codec_os2 (T : Tables) (hc : codec T = T) (s : Os2Rec) (hs : T.os2 = some s) : codecOs2 s = s := by
+  have := congrArg Tables.os2 hc
+  simp only [codec, hs, Option.map] at this
+  exact Option.some.inj this
+
+theorem merge_ctime_nf (T : Tables) (hc : codec T = T) :
+    decodeTime (encodeTime (merge T).creationTime) = (merge T).creationTime := by
+  rw [merge_ctime]
+  cases hh : T.head with
+  | none => decide
+  | some h =>
+    have := congrArg HeadRec.created (codec_head T hc h hh)
+    simpa [codecHead] using this
+
+theorem merge_mtime_nf (T : Tables) (hc : codec T = T) :
+    decodeTime (encodeTime (merge T).modificationTime) = (merge T).modificationTime := by
+  rw [merge_mtime]
+  cases hh : T.head with
+  | none => decide
+  | some h =>
+    have := congrArg HeadRec.modified (codec_head T hc h hh)
+    simpa [codecHead] using this
+
+theorem merge_perm_range (T : Tables) (hc : codec T = T) :
+    0 ≤ (merge T).permUse ∧ (merge T).permUse ≤ 3 := by
+  rw [merge_perm]
+  cases hs : T.os2 with
+  | none => decide
+  | some s =>
+    have := congrArg Os2Rec.permUse (codec_os2 T hc s hs)
+    simp only [codecOs2] at this
+    simp only
+    split at this <;> omega
+
+theorem merge_matrix (T : Tables) (hk : (merge T).outline.kind = .glyf) :
+    (merge T).fontMatrix = ⟨['U'], some (merge T).unitsPerEm⟩ := by
+  rw [merge_fontMatrix]
+  rw [merge_outline] at hk
+  cases hsc : T.scalerCFF
+  · rfl
+  · simp [mergeOutline, hsc] at hk
+
+theorem heightFallback_nonneg (c : Int) (hc : 0 ≤ c) (o : Outline) (g : Nat) :
+    0 < heightFallback c o g ∨ heightFallback 0 o g = heightFallback c o g := by
+  by_cases h : c = 0
+  · subst h; right; rfl
+  · left
+    unfold heightFallback
+    simp [h]; omega
+
+theorem merge_cap_ok (T : Tables) (hc : codec T = T) :
+    0 < (merge T).capHeight ∨
+      heightFallback 0 (merge T).outline (merge T).outline.gidH = (merge T).capHeight := by
+  rw [merge_cap, merge_outline]
+  apply heightFallback_nonneg
+  cases hs : T.os2 with
+  | none => decide
+  | some s =>
+    have := congrArg Os2Rec.capHeight (codec_os2 T hc s hs)
+    simp only [codecOs2] at this
+    simp only
+    split at this <;> omega
+
+theorem merge_xh_ok (T : Tables) (hc : codec T = T) :
+    0 < (merge T).xHeight ∨
+      heightFallback 0 (merge T).outline (merge T).outline.gidX = (merge T).xHeight := by
+  rw [merge_xh, merge_outline]
+  apply heightFallback_nonneg
+  cases hs : T.os2 with
+  | none => decide
+  | some s =>
+    have := congrArg Os2Rec.xHeight (codec_os2 T hc s hs)
+    simp only [codecOs2] at this
+    simp only
+    split at this <;> omega
+
+theorem merge_isOblique (T : Tables) : (merge T).isOblique =
+    match T.os2 with | some s => s.isOblique | none => false := rfl
+theorem merge_isItalic (T : Tables) : (merge T).isItalic =
+    (decide ((merge T).italicAngle.num ≠ 0) ||
+    (match T.head with | some h => h.isItalic | none => false) ||
+    (match T.os2 with | some s => s.isItalic || s.isOblique | none => false) ||
+    (T.name.isSome && hasInfix s_Italic (match T.name with | some n => n.subfamily | none => []))) := rfl
+theorem merge_isRegular (T : Tables) : (merge T).isRegular =
+    if !((merge T).isItalic || (merge T).isBold) then (match T.os2 with | some s => s.isRegular | none => false) else false := rfl
+theorem merge_isSerif (T : Tables) : (merge T).isSerif =
+    match T.os2 with | some s => classIsSerif s.familyClass | none => false := rfl
+theorem merge_isScript (T : Tables) : (merge T).isScript =
+    match T.os2 with | some s => classIsScript s.familyClass | none => false := rfl
+theorem merge_gsub (T : Tables) : (merge T).gsub =
+    match T.gsub with
+      | some g => some g
+      | none => if !isFixedPitch (mergeOutline T).widthList && (mergeOutline T).hasBest then (mergeOutline T).stdLig else none := rfl
+
+theorem weightTag_mem (F : FontMeta) : ∀ p, weightTag F = some p → p.1 ∈ weightWords := by
+  intro p hp
+  unfold weightTag at hp
+  split at hp
+  · cases hp; exact weightSimple_mem _
+  · cases hp
+
+theorem subfamily_italic (F : FontMeta) (hw : F.width ≤ 9) :
+    hasInfix s_Italic (subfamily F) = (F.isItalic && !F.isOblique) :=
+  subfamilyCore_italic F.width hw (weightTag F) (weightTag_mem F) _ _ _
+
+theorem isZero_eq (d : Dy) : d.isZero = !decide (d.num ≠ 0) := by
+  unfold Dy.isZero
+  by_cases h : d.num = 0 <;> simp [h]
+
+theorem merge_italic_ok (T : Tables) (hw : (merge T).width ≤ 9) :
+    (merge T).isItalic = (!(merge T).italicAngle.isZero || (merge T).isOblique ||
+      hasInfix s_Italic (subfamily (merge T))) := by
+  rw [subfamily_italic _ hw, isZero_eq]
+  have h1 := merge_isItalic T
+  have h2 := merge_isOblique T
+  generalize (merge T).isItalic = it at *
+  generalize (merge T).isOblique = ob at *
+  generalize decide ((merge T).italicAngle.num ≠ 0) = a at *
+  cases hs : T.os2 with
+  | none =>
+    simp only [hs] at h1 h2
+    subst h2
+    cases it <;> cases a <;> simp_all
+  | some s =>
+    simp only [hs] at h1 h2
+    subst h2
+    generalize (match T.head with | some h => h.isItalic | none => false) = x at h1
+    generalize (T.name.isSome && hasInfix s_Italic (match T.name with | some n => n.subfamily | none => [])) = y at h1
+    cases it <;> cases a <;> cases hso : s.isOblique <;> simp_all
+
+theorem merge_regular_ok (T : Tables) :
+    (merge T).isRegular = true → (merge T).isItalic = false ∧ (merge T).isBold = false := by
+  rw [merge_isRegular]
+  generalize (merge T).isItalic = it
+  generalize (merge T).isBold = bo
+  cases it <;> cases bo <;> simp
+
+theorem merge_script_ok (T : Tables) : (merge T).isScript = true → (merge T).isSerif = false := by
+  rw [merge_isScript, merge_isSerif]
+  cases T.os2 with
+  | none => simp
+  | some s =>
+    simp only [classIsScript, classIsSerif, decide_eq_true_eq, decide_eq_false_iff_not]
+    omega
+
+theorem mergeOutline_widthsEmpty (T : Tables) (hk : (mergeOutline T).kind = .glyf) :
+    (mergeOutline T).widths ≠ some [] := by
+  cases hsc : T.scalerCFF
+  · simp only [mergeOutline, hsc]
+    generalize hmtxWidths T = hw
+    cases hw <;> simp
+  · simp [mergeOutline, hsc] at hk
+
+theorem merge_gsub_ok (T : Tables) : (merge T).gsub = none →
+    (!isFixedPitch (merge T).outline.widthList && (merge T).outline.hasBest) = false ∨
+      (merge T).outline.stdLig = none := by
+  rw [merge_gsub, merge_outline]
+  cases T.gsub with
+  | some g => simp
+  | none =>
+    simp only
+    split
+    · intro h; exact Or.inr h
+    · rename_i h
+      intro _; left; simpa using h
+
+theorem inDomain_merge (T : Tables) (hacc : readErr T = none) (hd : Decoded T) : InDomain (merge T) :=
+  inDomain_merge' T hacc hd.cffWidths
 
 theorem canonical_merge (T : Tables) (hacc : readErr T = none) (hd : Decoded T) (hs : Stable T) :
-    Canonical (merge T) := by
-  sorry
+    Canonical (merge T) where
+  version := have _ := hacc; merge_version_nf T hd.revision
+  ctime := merge_ctime_nf T hd.codecFixed
+  mtime := merge_mtime_nf T hd.codecFixed
+  perm := merge_perm_range T hd.codecFixed
+  matrix := merge_matrix T
+  cap := merge_cap_ok T hd.codecFixed
+  xh := merge_xh_ok T hd.codecFixed
+  angle := ⟨(merge T).italicAngle.num, rfl, hs.angle⟩
+  ulPos := hs.ulPos
+  ulThick := hs.ulThick
+  italic := merge_italic_ok T hs.widthClass
+  bold := hs.bold
+  regular := merge_regular_ok T
+  script := merge_script_ok T
+  widths := hs.widths
+  widthsNone := hs.widthsNone
+  widthsEmpty := by rw [merge_outline]; exact mergeOutline_widthsEmpty T
+  gsub := merge_gsub_ok T
 
 /-- for accepted, decoder-produced table sets outside the excluded classes, re-writing and
 re-reading the font `Read` returned gives the same font -/
@@ -45,8 +387,205 @@ theorem fixed_point (env : Env) (T : Tables) (hacc : readErr T = none) (hd : Dec
   rw [read_write env (merge T) (inDomain_merge T hacc hd)]
   exact lossless (merge T) (canonical_merge T hacc hd hs)
 
-theorem canonical_nf (F : FontMeta) (h : InDomain F) (hw : F.width ≤ 9) : Canonical (nf F) := by
-  sorry
+/-! ## projections of `nf` -/
+
+theorem nf_outline (F : FontMeta) : (nf F).outline = nfOutline F.outline := rfl
+theorem nf_version (F : FontMeta) : (nf F).version = nfVersion F.version := rfl
+theorem nf_ctime (F : FontMeta) : (nf F).creationTime = decodeTime (encodeTime F.creationTime) := rfl
+theorem nf_mtime (F : FontMeta) : (nf F).modificationTime = decodeTime (encodeTime F.modificationTime) := rfl
+theorem nf_perm (F : FontMeta) : (nf F).permUse = if 1 ≤ F.permUse ∧ F.permUse ≤ 3 then F.permUse else 0 := rfl
+theorem nf_fontMatrix (F : FontMeta) : (nf F).fontMatrix =
+    match F.outline.kind with
+      | .glyf => ⟨['U'], some F.unitsPerEm⟩
+      | .cff => F.fontMatrix := rfl
+theorem nf_unitsPerEm (F : FontMeta) : (nf F).unitsPerEm = F.unitsPerEm := rfl
+theorem nf_cap (F : FontMeta) : (nf F).capHeight =
+    heightFallback (if F.capHeight > 0 then F.capHeight else 0) (nfOutline F.outline) (nfOutline F.outline).gidH := rfl
+theorem nf_xh (F : FontMeta) : (nf F).xHeight =
+    heightFallback (if F.xHeight > 0 then F.xHeight else 0) (nfOutline F.outline) (nfOutline F.outline).gidX := rfl
+theorem nf_angle (F : FontMeta) : (nf F).italicAngle = ⟨toInt32 F.italicAngle.round16, 16⟩ := rfl
+theorem nf_ulPos (F : FontMeta) : (nf F).underlinePosition = Dy.ofInt (toInt16 F.underlinePosition.round) := rfl
+theorem nf_ulThick (F : FontMeta) : (nf F).underlineThickness = Dy.ofInt (toInt16 F.underlineThickness.round) := rfl
+theorem nf_isItalic (F : FontMeta) : (nf F).isItalic =
+    (!F.italicAngle.isZero || F.isOblique || hasInfix s_Italic (subfamily F)) := rfl
+theorem nf_isBold (F : FontMeta) : (nf F).isBold = ((F.isBold && !F.isRegular) || boldWord (subfamily F)) := rfl
+theorem nf_isOblique (F : FontMeta) : (nf F).isOblique = F.isOblique := rfl
+theorem nf_isRegular (F : FontMeta) : (nf F).isRegular = (F.isRegular && !(nf F).isItalic && !(nf F).isBold) := rfl
+theorem nf_isScript (F : FontMeta) : (nf F).isScript = (F.isScript && !F.isSerif) := rfl
+theorem nf_isSerif (F : FontMeta) : (nf F).isSerif = F.isSerif := rfl
+theorem nf_width (F : FontMeta) : (nf F).width = F.width := rfl
+theorem nf_weightTag (F : FontMeta) : weightTag (nf F) = weightTag F := rfl
+theorem nf_gsub (F : FontMeta) : (nf F).gsub =
+    match F.gsub with
+      | some g => some g
+      | none => if !isFixedPitch (nfOutline F.outline).widthList && (nfOutline F.outline).hasBest
+          then (nfOutline F.outline).stdLig else none := rfl
+
+theorem nfVersion_lt (v : Nat) : nfVersion v < 4294967296 := verOfDecimal_lt _ _
+
+theorem nfVersion_idem (v : Nat) (h : v < 4294967296) : nfVersion (nfVersion v) = nfVersion v := by
+  rw [← verRound_nfVersion v h]
+  exact nfVersion_verRound _ (nfVersion_lt v)
+
+theorem subfamilyCore_bold_none (width : Nat) (hw : width ≤ 9) (b o i : Bool) :
+    boldWord (subfamilyCore width none b o i) = b :=
+  subfamilyCore_bold width hw none (fun _ h => nomatch h) b o i
+
+theorem subfamilyCore_bold_some (width : Nat) (hw : width ≤ 9) (t : Str) (s : Bool)
+    (ht : t ∈ weightWords) (b o i : Bool) :
+    boldWord (subfamilyCore width (some (t, s)) b o i) = (decide (t = s_Bold) && !s) :=
+  subfamilyCore_bold width hw (some (t, s)) (fun _ h => by cases h; exact ht) b o i
+
+/-- `boldWord (subfamily F)` as a function of the weight tag and the Bold flag -/
+def boldForm (wt : Option (Str × Bool)) (b : Bool) : Bool :=
+  match wt with
+  | none => b
+  | some (tag, seen) => decide (tag = s_Bold) && !seen
+
+theorem subfamily_bold (F : FontMeta) (hw : F.width ≤ 9) :
+    boldWord (subfamily F) = boldForm (weightTag F) F.isBold := by
+  unfold subfamily
+  have hm := weightTag_mem F
+  generalize weightTag F = wt at hm ⊢
+  cases wt with
+  | none => exact subfamilyCore_bold_none _ hw _ _ _
+  | some p =>
+    obtain ⟨t, s⟩ := p
+    exact subfamilyCore_bold_some _ hw t s (hm (t, s) rfl) _ _ _
+
+theorem nf_italic_ok (F : FontMeta) (hw : F.width ≤ 9) :
+    (nf F).isItalic = (!(nf F).italicAngle.isZero || (nf F).isOblique ||
+      hasInfix s_Italic (subfamily (nf F))) := by
+  rw [subfamily_italic (nf F) (by rw [nf_width]; exact hw), nf_isOblique, nf_isItalic, nf_angle,
+    subfamily_italic F hw]
+  have hz := toInt32_zero_of_isZero F.italicAngle
+  generalize toInt32 F.italicAngle.round16 = r at *
+  cases hzz : F.italicAngle.isZero
+  · cases F.isOblique <;> cases F.isItalic <;> simp
+  · have := hz hzz
+    subst this
+    cases F.isOblique <;> cases F.isItalic <;> simp [Dy.isZero]
+
+theorem nf_bold_ok (F : FontMeta) (hw : F.width ≤ 9) :
+    boldWord (subfamily (nf F)) = true → (nf F).isBold = true := by
+  rw [subfamily_bold (nf F) (by rw [nf_width]; exact hw), nf_weightTag, nf_isBold, subfamily_bold F hw]
+  cases weightTag F with
+  | none => simp [boldForm]
+  | some p =>
+    obtain ⟨t, s⟩ := p
+    simp only [boldForm]
+    intro h; rw [h]; simp
+
+theorem nf_regular_ok (F : FontMeta) :
+    (nf F).isRegular = true → (nf F).isItalic = false ∧ (nf F).isBold = false := by
+  rw [nf_isRegular]
+  generalize (nf F).isItalic = it
+  generalize (nf F).isBold = bo
+  cases it <;> cases bo <;> simp
+
+theorem nf_script_ok (F : FontMeta) : (nf F).isScript = true → (nf F).isSerif = false := by
+  rw [nf_isScript, nf_isSerif]
+  cases F.isSerif <;> simp
+
+theorem nf_gsub_ok (F : FontMeta) : (nf F).gsub = none →
+    (!isFixedPitch (nf F).outline.widthList && (nf F).outline.hasBest) = false ∨
+      (nf F).outline.stdLig = none := by
+  rw [nf_gsub, nf_outline]
+  cases F.gsub with
+  | some g => simp
+  | none =>
+    simp only
+    split
+    · intro h; exact Or.inr h
+    · rename_i h
+      intro _; left; simpa using h
+
+theorem nf_perm_range (F : FontMeta) : 0 ≤ (nf F).permUse ∧ (nf F).permUse ≤ 3 := by
+  rw [nf_perm]
+  split <;> omega
+
+theorem nf_matrix (F : FontMeta) (hk : (nf F).outline.kind = .glyf) :
+    (nf F).fontMatrix = ⟨['U'], some (nf F).unitsPerEm⟩ := by
+  rw [nf_fontMatrix, nf_unitsPerEm]
+  have : F.outline.kind = .glyf := hk
+  rw [this]
+
+theorem nf_cap_ok (F : FontMeta) :
+    0 < (nf F).capHeight ∨ heightFallback 0 (nf F).outline (nf F).outline.gidH = (nf F).capHeight := by
+  rw [nf_cap, nf_outline]
+  apply heightFallback_nonneg
+  split <;> omega
+
+theorem nf_xh_ok (F : FontMeta) :
+    0 < (nf F).xHeight ∨ heightFallback 0 (nf F).outline (nf F).outline.gidX = (nf F).xHeight := by
+  rw [nf_xh, nf_outline]
+  apply heightFallback_nonneg
+  split <;> omega
+
+theorem replicate_zero_ok (n : Nat) : ∀ w ∈ List.replicate n (Dy.ofInt 0), ∃ m, w = Dy.ofInt m ∧ isInt16 m := by
+  intro w hw
+  rw [List.eq_of_mem_replicate hw]
+  exact ⟨0, rfl, by unfold isInt16; omega⟩
+
+theorem nfOutline_widths_ok (o : Outline) :
+    ∀ w ∈ (nfOutline o).widthList, ∃ n, w = Dy.ofInt n ∧ isInt16 n := by
+  obtain ⟨kind, n, widths, heights, glyphs, eg, cm, hb, gh, gx, sl⟩ := o
+  simp only [nfOutline, List.length_map]
+  by_cases hpos : (Outline.widthList ⟨kind, n, widths, heights, glyphs, eg, cm, hb, gh, gx, sl⟩).length > 0
+  · rw [if_pos hpos]
+    simp only [Outline.widthList]
+    intro w hw
+    simp only [List.mem_map] at hw
+    obtain ⟨a, ⟨b, _, rfl⟩, rfl⟩ := hw
+    exact ⟨_, rfl, toInt16_range _⟩
+  · rw [if_neg hpos]
+    cases kind
+    · exact replicate_zero_ok n
+    · cases widths with
+      | none => exact replicate_zero_ok n
+      | some l =>
+        simp only [Outline.widthList] at hpos ⊢
+        cases l with
+        | nil => intro w hw; cases hw
+        | cons a t => simp at hpos
+
+theorem nfOutline_widthsNone (o : Outline) (h : ∀ l, o.widths = some l → l.length = o.numGlyphs) :
+    (nfOutline o).widths = none → (nfOutline o).numGlyphs = 0 := by
+  have hlen := widthList_length o h
+  obtain ⟨kind, n, widths, heights, glyphs, eg, cm, hb, gh, gx, sl⟩ := o
+  simp only [nfOutline, List.length_map, hlen] at hlen ⊢
+  by_cases hn : n = 0
+  · intro _; exact hn
+  · have : n > 0 := by omega
+    simp [this]
+
+theorem nfOutline_widthsEmpty (o : Outline) (hk : (nfOutline o).kind = .glyf) :
+    (nfOutline o).widths ≠ some [] := by
+  obtain ⟨kind, n, widths, heights, glyphs, eg, cm, hb, gh, gx, sl⟩ := o
+  simp only [nfOutline, List.length_map] at hk ⊢
+  subst hk
+  generalize Outline.widthList _ = wl
+  cases wl <;> simp
+
+theorem canonical_nf (F : FontMeta) (h : InDomain F) (hw : F.width ≤ 9) : Canonical (nf F) where
+  version := nfVersion_idem F.version h.2.2
+  ctime := decode_encode_idem _
+  mtime := decode_encode_idem _
+  perm := nf_perm_range F
+  matrix := nf_matrix F
+  cap := nf_cap_ok F
+  xh := nf_xh_ok F
+  angle := ⟨_, rfl, toInt32_range _⟩
+  ulPos := ⟨_, rfl, toInt16_range _⟩
+  ulThick := ⟨_, rfl, toInt16_range _⟩
+  italic := nf_italic_ok F hw
+  bold := nf_bold_ok F hw
+  regular := nf_regular_ok F
+  script := nf_script_ok F
+  widths := nfOutline_widths_ok F.outline
+  widthsNone := nfOutline_widthsNone F.outline h.1
+  widthsEmpty := nfOutline_widthsEmpty F.outline
+  gsub := nf_gsub_ok F
 
 theorem nf_idem (F : FontMeta) (h : InDomain F) (hw : F.width ≤ 9) : nf (nf F) = nf F :=
   lossless (nf F) (canonical_nf F h hw)
